@@ -11,6 +11,38 @@ pub fn reaching_definitions(
     fixed_point::fixed_point_forward(rda, function)
 }
 
+/// Given the result of `reaching_definitions`, compute the definitions which
+/// reach each location _before_ that location is executed.
+///
+/// `reaching_definitions` holds, for every location, the definitions which
+/// are live after the location has been executed. An instruction which reads
+/// the scalar it writes (`esp = esp - 4`) has at that point already replaced
+/// the definitions it uses with itself, so uses must be matched against the
+/// definitions flowing into the location: the union of the definitions
+/// reaching its predecessors.
+pub(crate) fn reaching_definitions_in(
+    function: &il::Function,
+    rd: &HashMap<il::ProgramLocation, LocationSet>,
+) -> Result<HashMap<il::ProgramLocation, LocationSet>, Error> {
+    let mut rd_in = HashMap::new();
+    for location in rd.keys() {
+        let ref_location =
+            il::RefProgramLocation::new(function, location.function_location().apply(function)?);
+        let mut definitions = LocationSet::new();
+        for predecessor in ref_location.backward()? {
+            // Predecessors which are unreachable from the entry have no state.
+            if let Some(predecessor_rd) = rd.get(&predecessor.into()) {
+                predecessor_rd
+                    .locations()
+                    .iter()
+                    .for_each(|definition| definitions.insert(definition.clone()));
+            }
+        }
+        rd_in.insert(location.clone(), definitions);
+    }
+    Ok(rd_in)
+}
+
 // We require a struct to implement methods for our analysis over.
 struct ReachingDefinitionsAnalysis<'r> {
     function: &'r il::Function,
